@@ -254,6 +254,24 @@ pub fn minimise(
     if !fails(&build(&head, &tail)) {
         return events.to_vec();
     }
+    // pre-pass: what-if forks never change the main timeline, so all of them (or all but the last)
+    // can usually go in one trial
+    for keep_last in [false, true] {
+        let last_fork = tail.iter().rposition(|e| matches!(e, Event::ForkTx(_)));
+        let cand: Vec<Event> = tail
+            .iter()
+            .enumerate()
+            .filter(|(i, e)| !matches!(e, Event::ForkTx(_)) || (keep_last && Some(*i) == last_fork))
+            .map(|(_, e)| e.clone())
+            .collect();
+        if cand.len() < tail.len() {
+            trials += 1;
+            if fails(&build(&head, &cand)) {
+                tail = cand;
+                break;
+            }
+        }
+    }
     let mut n = 2usize;
     while tail.len() >= 2 && trials < max_trials {
         let chunk = (tail.len() + n - 1) / n;
